@@ -417,6 +417,8 @@ class Interp:
             m = self.models.find(getattr(f, "__func__", f))
             if m is not None:
                 return m(self, args, kwargs)
+            if isinstance(f, NativeModel) and hasattr(type(f), "__call__"):
+                return f(*args, **kwargs)          # a callable contract stub
             if isinstance(f, types.BuiltinMethodType) and isinstance(f.__self__, str) and f.__name__ == "format":
                 return SymStr((f.__self__,) + tuple(args) + tuple(kwargs.values()), fmt=f.__self__, args=args, kwargs=kwargs)
             if isinstance(f, types.BuiltinMethodType) and f.__self__ is not None and \
